@@ -144,16 +144,56 @@ def _poly_measures(spec):
     return a, l, np.array(pts, dtype=np.float64)
 
 
+ORIENT_SYMS = ("negative_volume",)
+
+
 class Judge:
-    def __init__(self, run, base, spec):
-        self.run, self.base, self.spec = run, base, spec
+    """
+    key = core [+ orient] + sym.  `orient` (placement class, sign of the height) is part of the key
+    only for orientation symptoms (inside-out / inconsistent winding): other symptoms of a function do
+    not depend on where the result is placed, so one defect keeps one key.
+    `inherited`: symptoms already shown by an object without history (reported there).
+    """
+
+    def __init__(self, run, core, spec, orient="", inherited=()):
+        self.run, self.core, self.orient, self.spec = run, core, orient, spec
         self.fired = set()
+        self.inherited = set(inherited)
 
     def bad(self, sym, what, **info):
         self.fired.add(sym)
+        if sym in self.inherited:
+            self.run.count("symptom_inherited_from_fresh")
+            return
         case = dict(self.spec)
         case["observed"] = info
-        self.run.violation("%s sym=%s" % (self.base, sym), what, case)
+        mid = (" " + self.orient) if (self.orient and any(o in sym for o in ORIENT_SYMS)) else ""
+        self.run.violation("%s%s sym=%s" % (self.core, mid, sym), what, case)
+
+
+def _collinear_class(spec):
+    """1 when a vertex of one ring lies on the supporting line of an edge of another ring"""
+    rings = [spec["shell"]] + list(spec.get("holes") or [])
+    R = []
+    for r in rings:
+        r = [tuple(map(float, q)) for q in r]
+        if r[0] == r[-1]:
+            r = r[:-1]
+        R.append(r)
+    for i, a in enumerate(R):
+        for k in range(len(a)):
+            p, q = a[k], a[(k + 1) % len(a)]
+            for j, b in enumerate(R):
+                if i == j:
+                    continue
+                for c in b:
+                    if abs((q[0] - p[0]) * (c[1] - p[1]) - (q[1] - p[1]) * (c[0] - p[0])) < 1e-12:
+                        return 1
+    return 0
+
+
+def _poly_class(spec):
+    return "holes=%s collinear=%d" % ("1+" if spec.get("holes") else "0", _collinear_class(spec))
 
 
 def judge_mesh(J, mesh, exp):
@@ -303,7 +343,7 @@ def case_revolved(run, spec):
         extra = " angle=%s cap=%d" % ("full" if full else "partial", int(cap))
         if a.get("sections") == 1:
             extra += " sections=1"
-    J = Judge(run, "fn=%s placement=%s%s" % (fn, pl, extra), spec)
+    J = Judge(run, "fn=%s%s" % (fn, extra), spec, orient="placement=%s" % pl)
     N = None
     if fn == "cylinder":
         mesh = _call(J, c.cylinder, radius=a["radius"], height=a["height"], sections=a.get("sections"), **kw)
@@ -377,7 +417,7 @@ def case_box(run, spec):
 
     T = None if spec.get("T") is None else np.array(spec["T"], dtype=np.float64)
     a = spec["args"]
-    J = Judge(run, "fn=box placement=%s%s" % (spec["placement"], " via=bounds" if "bounds" in a else ""), spec)
+    J = Judge(run, "fn=box%s" % (" via=bounds" if "bounds" in a else ""), spec, orient="placement=%s" % spec["placement"])
     if "bounds" in a:
         b = np.array(a["bounds"], dtype=np.float64)
         mesh = _call(J, c.box, bounds=b)
@@ -402,7 +442,7 @@ def case_icosphere(run, spec):
     from trimesh import creation as c
 
     a = spec["args"]
-    J = Judge(run, "fn=icosphere placement=none", spec)
+    J = Judge(run, "fn=icosphere", spec)
     R = a["radius"]
     prev = None
     for s in range(0, a["max_subdivisions"] + 1):
@@ -435,7 +475,7 @@ def case_convergence(run, spec):
     from trimesh import creation as c
 
     fn, a = spec["fn_inner"], spec["args"]
-    J = Judge(run, "fn=%s placement=none check=convergence" % fn, spec)
+    J = Judge(run, "fn=%s check=convergence" % fn, spec)
     n0 = a["n0"]
     errs = []
     for k in range(5):
@@ -491,7 +531,8 @@ def case_extrude(run, spec):
     a = spec["args"]
     eng = a.get("engine")
     fn = spec["fn"]
-    J = Judge(run, "fn=%s placement=%s engine=%s height=%s" % (fn, spec["placement"], eng, "neg" if a["height"] < 0 else "pos"), spec)
+    J = Judge(run, "fn=%s engine=%s %s" % (fn, eng, _poly_class(a["polygon"])), spec,
+              orient="placement=%s height=%s" % (spec["placement"], "neg" if a["height"] < 0 else "pos"))
     area, per, pts2 = _poly_measures(a["polygon"])
     h = a["height"]
     kw = {} if T is None else {"transform": T}
@@ -520,7 +561,7 @@ def case_triangulate(run, spec):
 
     a = spec["args"]
     eng = a["engine"]
-    J = Judge(run, "fn=triangulate_polygon engine=%s holes=%d" % (eng, min(len(a["polygon"].get("holes") or []), 2)), spec)
+    J = Judge(run, "fn=triangulate_polygon engine=%s %s" % (eng, _poly_class(a["polygon"])), spec)
     poly = _poly(a["polygon"])
     res = _call(J, c.triangulate_polygon, poly, engine=eng)
     run.case("triangulate:%s" % eng, repr(a))
@@ -537,6 +578,19 @@ def case_triangulate(run, spec):
         J.bad("area_mismatch", "triangle areas do not add up to the polygon area", got=float(np.abs(sa).sum()), want=area)
     if not (np.all(sa > 0) or np.all(sa < 0)):
         J.bad("mixed_winding", "triangles of one triangulation wind both ways", positive=int((sa > 0).sum()), negative=int((sa < 0).sum()), zero=int((sa == 0).sum()))
+    # observation only (not part of the statement): a vertex in the interior of a triangle edge
+    tj = 0
+    for t in F:
+        for k in range(3):
+            pa, pb = V[t[k]], V[t[(k + 1) % 3]]
+            ab = pb - pa
+            w = pts2 - pa
+            cr = np.abs(ab[0] * w[:, 1] - ab[1] * w[:, 0])
+            tt = (w @ ab) / (ab @ ab)
+            tj += int(((cr < 1e-12 * (1 + np.abs(ab).max())) & (tt > 1e-9) & (tt < 1 - 1e-9)).sum())
+    if tj:
+        run.count("triangulation_t_junctions_observed")
+        run.state("t_junction", (eng, _poly_class(a["polygon"])))
     cen = tri.mean(axis=1)
     outside = [i for i, p in enumerate(cen) if not poly.contains(Point(p))]
     if outside:
@@ -585,8 +639,8 @@ def case_sweep(run, spec):
     cap, connect = a.get("cap", True), a.get("connect", True)
     eng = a.get("engine")
     holes = len(a["polygon"].get("holes") or [])
-    J = Judge(run, "fn=sweep_polygon path=%s cap=%d connect=%d engine=%s holes=%d twist=%d" % (
-        a["path_kind"], int(cap), int(connect), eng, min(holes, 1), int(a.get("angles") is not None)), spec)
+    J = Judge(run, "fn=sweep_polygon path=%s cap=%d connect=%d engine=%s %s twist=%d" % (
+        a["path_kind"], int(cap), int(connect), eng, _poly_class(a["polygon"]), int(a.get("angles") is not None)), spec)
     kw = {}
     if a.get("angles") is not None:
         kw["angles"] = np.array(a["angles"], dtype=np.float64)
@@ -612,11 +666,15 @@ def case_sweep(run, spec):
             J.bad("component_count", "closed sweep of a polygon with h holes does not have 1+h surface components",
                   components=res["topo"]["components"], holes=holes)
     if res and wt and a["path_kind"] != "straight":
-        # no exact closed form: the volume lies between area x (chord length of the path) bounds
+        # no closed form for bent sweeps (slices are not scaled on the mitre planes, and the roll of
+        # consecutive slices comes from spherical coordinates of the tangent: paths heading near -Z get
+        # a strong twist).  Observation only - the statement claims a closed, consistently wound,
+        # positive-volume surface, which is what is judged above.
         seg = np.linalg.norm(np.diff(path, axis=0), axis=1).sum()
         v = abs(res["own"]["volume"])
         if not (0.5 * area * seg < v < 1.5 * area * seg):
-            J.bad("volume_implausible", "swept volume is not within 50% of area x path length", volume=v, area_x_length=area * seg)
+            run.count("sweep_volume_far_from_area_x_length_observed")
+            run.state("sweep_pinched", (a["path_kind"], eng))
 
 
 # ----------------------------------------------------------------------------
@@ -739,119 +797,154 @@ def _prim_expect(kind, p, U):
     return out
 
 
-def _judge_prim(J, prim, kind, p, U, step_tag):
-    """Compare the primitive with a newly built one and with the analytic values."""
+def _judge_prim_obj(J, prim, kind, p, U, step_tag):
+    """Oracle checks of one primitive object against the parameters (p, U) it should reflect."""
     run = J.run
     mirrored = np.linalg.det(U[:3, :3]) < 0
     try:
         V = np.array(prim.vertices, dtype=np.float64)
         F = np.array(prim.faces, dtype=np.int64)
     except BaseException as e:  # noqa
-        J.bad("read=mesh exception:" + type(e).__name__, "building the primitive's mesh raised: %s" % str(e)[:100], step=step_tag)
-        return
-    try:
-        fresh = _new_prim(kind, p, U)
-        FV = np.array(fresh.vertices, dtype=np.float64)
-        FF = np.array(fresh.faces, dtype=np.int64)
-    except BaseException as e:  # noqa
-        run.skip("fresh primitive could not be built: %s" % type(e).__name__)
-        return
-    scale = float(np.linalg.norm(np.ptp(FV, axis=0))) or 1.0
-    run.count("primitive_steps_judged")
-    # ---- the mesh reflects the current parameters
-    same = V.shape == FV.shape and F.shape == FF.shape and np.abs(V - FV).max() <= 1e-9 * (scale + np.abs(FV).max())
-    if same and not np.array_equal(F, FF):
-        same = False
-    if not same:
-        # vertex order may legitimately differ: compare as sets and by measures
-        ok, worst = sh.same_point_set(V, FV, 1e-9 * (scale + np.abs(FV).max())) if V.size and FV.size else (False, None)
-        mo, mf = sh.mesh_measures(V, F), sh.mesh_measures(FV, FF)
-        if not ok or abs(mo["volume"] - mf["volume"]) > 1e-9 * abs(mf["volume"]) or abs(mo["area"] - mf["area"]) > 1e-9 * mf["area"]:
-            J.bad("read=mesh stale_or_wrong", "vertices/faces differ from a newly constructed primitive with the same parameters",
-                  step=step_tag, worst_vertex_distance=worst, volume=[mo["volume"], mf["volume"]], n=[len(V), len(FV)])
+        J.bad("mesh_exception:" + type(e).__name__, "building the primitive's mesh raised: %s" % str(e)[:100], step=step_tag)
+        return None
+    if len(F) == 0 or len(V) == 0 or F.max() >= len(V) or not np.isfinite(V).all():
+        J.bad("mesh_empty_or_invalid", "primitive mesh is empty / refers to missing vertices / not finite", step=step_tag)
+        return None
+    scale = float(np.linalg.norm(np.ptp(V, axis=0))) or 1.0
+    run.count("primitive_objects_judged")
     own = sh.mesh_measures(V, F)
     topo = sh.topology(F)
     if not (topo["watertight"] and topo["consistent"]):
-        J.bad("read=mesh not_watertight", "primitive mesh is not a closed consistently wound surface", step=step_tag, **{k: topo[k] for k in ("open_edges", "nonmanifold_edges", "degenerate")})
+        J.bad("mesh_not_watertight", "primitive mesh is not a closed consistently wound surface", step=step_tag,
+              **{k: topo[k] for k in ("open_edges", "nonmanifold_edges", "degenerate")})
     elif own["volume"] <= 0:
-        J.bad("read=mesh negative_volume", "primitive mesh is wound inside out", step=step_tag, volume=own["volume"])
+        J.bad("mesh_negative_volume", "primitive mesh is wound inside out", step=step_tag, volume=own["volume"])
     exp = _prim_expect(kind, p, U)
     if "mesh_volume" in exp and abs(abs(own["volume"]) - exp["mesh_volume"]) > RTOL * exp["mesh_volume"]:
-        J.bad("read=mesh volume_mismatch", "mesh volume differs from the closed form for the current parameters",
+        J.bad("mesh_volume_mismatch", "mesh volume differs from the closed form for the current parameters",
               step=step_tag, own=own["volume"], expected=exp["mesh_volume"])
     if "mesh_area" in exp and abs(own["area"] - exp["mesh_area"]) > RTOL * exp["mesh_area"]:
-        J.bad("read=mesh area_mismatch", "mesh area differs from the closed form for the current parameters",
+        J.bad("mesh_area_mismatch", "mesh area differs from the closed form for the current parameters",
               step=step_tag, own=own["area"], expected=exp["mesh_area"])
     if "smooth_volume" in exp and not (0.5 * exp["smooth_volume"] < abs(own["volume"]) <= exp["smooth_volume"] * (1 + 1e-12)):
-        J.bad("read=mesh volume_vs_smooth", "mesh volume is not below (and near) the smooth volume", step=step_tag,
+        J.bad("mesh_volume_vs_smooth", "mesh volume is not below (and near) the smooth volume", step=step_tag,
               own=own["volume"], smooth=exp["smooth_volume"])
     if kind in ("Cylinder", "Capsule"):
         nz, naz = _derive_counts(V, U)
         run.state("prim_azimuths", (kind, p["sections"], naz))
         if naz != p["sections"]:
-            J.bad("read=mesh param=sections not_reflected", "number of facets around the axis differs from `sections`",
+            J.bad("mesh_param=sections_not_reflected", "number of facets around the axis differs from `sections`",
                   step=step_tag, sections=p["sections"], azimuths=naz)
+        # every vertex within the smooth shape's surface: distance to the axis segment
+        Ti = np.linalg.inv(U)
+        L = _tp(V, Ti)
+        r, h = p["radius"], p["height"]
+        rad = np.hypot(L[:, 0], L[:, 1])
+        if kind == "Cylinder":
+            if np.abs(rad[rad > 1e-9 * scale] - r).max() > 1e-9 * scale or np.abs(np.abs(L[:, 2]) - h / 2).max() > 1e-9 * scale:
+                J.bad("mesh_off_surface", "cylinder vertices are not on the rims of radius `radius` at +-height/2", step=step_tag)
+        else:
+            zc = np.clip(L[:, 2], -h / 2, h / 2)
+            d = np.sqrt(rad ** 2 + (L[:, 2] - zc) ** 2)
+            if np.abs(d - r).max() > 1e-9 * scale:
+                J.bad("mesh_off_surface", "capsule vertices are not at `radius` from the axis segment of length `height`",
+                      step=step_tag, worst=float(np.abs(d - r).max()))
     if kind == "Sphere":
         r = p["radius"]
         d = np.abs(np.linalg.norm(V - U[:3, 3], axis=1) - r).max()
-        if d > 1e-10 * max(r, 1.0) * 10:
-            J.bad("read=mesh off_sphere", "sphere vertices are not at `radius` from `center`", step=step_tag, worst=float(d))
+        if d > 1e-9 * max(r, 1.0):
+            J.bad("mesh_off_surface", "sphere vertices are not at `radius` from `center`", step=step_tag, worst=float(d))
         if len(F) != 20 * 4 ** p["subdivisions"]:
-            J.bad("read=mesh param=subdivisions not_reflected", "face count is not 20*4^subdivisions", step=step_tag, faces=len(F), subdivisions=p["subdivisions"])
+            J.bad("mesh_param=subdivisions_not_reflected", "face count is not 20*4^subdivisions", step=step_tag, faces=len(F), subdivisions=p["subdivisions"])
+    if kind == "Box":
+        e = np.array(p["extents"], dtype=np.float64)
+        corners = _tp(np.array([[sx * e[0] / 2, sy * e[1] / 2, sz * e[2] / 2] for sx in (-1, 1) for sy in (-1, 1) for sz in (-1, 1)]), U)
+        ok, worst = sh.same_point_set(V, corners, 1e-9 * (scale + np.abs(corners).max()))
+        if not ok:
+            J.bad("mesh_vertex_set", "box vertices are not the corners given by extents and transform", step=step_tag, worst=worst)
+    if kind == "Extrusion":
+        _, _, pts2 = _poly_measures(p["polygon"])
+        pts = _tp(np.array([[q[0], q[1], zz] for q in pts2 for zz in (0.0, p["height"])]), U)
+        ok, worst = sh.same_point_set(V, pts, 1e-9 * (scale + np.abs(pts).max()))
+        if not ok:
+            J.bad("mesh_vertex_set", "extrusion vertices are not the polygon vertices at 0 and height, transformed", step=step_tag, worst=worst)
     # ---- analytic reads
     for name in ("volume", "area"):
-        if name in exp:
+        if name in exp and not (kind == "Cylinder" and name == "area"):
             try:
                 got = float(getattr(prim, name))
             except BaseException as e:  # noqa
-                J.bad("read=%s exception:%s" % (name, type(e).__name__), "reading %s raised" % name, step=step_tag)
+                J.bad("read=%s_exception:%s" % (name, type(e).__name__), "reading %s raised" % name, step=step_tag)
                 continue
-            tol = RTOL * exp[name]
-            # Box / Cylinder area comes from the mesh
-            if kind == "Cylinder" and name == "area":
-                continue
-            if abs(got - exp[name]) > tol:
-                J.bad("read=%s analytic_mismatch" % name, "%s differs from the formula for the current parameters" % name,
+            if abs(got - exp[name]) > RTOL * exp[name]:
+                J.bad("read=%s_analytic_mismatch" % name, "%s differs from the formula for the current parameters" % name,
                       step=step_tag, got=got, expected=exp[name])
-    for name in ("volume", "area", "bounds", "moment_inertia", "center_mass"):
-        try:
-            a, b = np.asarray(getattr(prim, name), dtype=np.float64), np.asarray(getattr(fresh, name), dtype=np.float64)
-        except BaseException as e:  # noqa
-            J.bad("read=%s exception:%s" % (name, type(e).__name__), "reading %s raised" % name, step=step_tag)
-            continue
-        if a.shape != b.shape or np.abs(a - b).max() > 1e-9 * max(np.abs(b).max(), scale * 1e-3):
-            J.bad("read=%s differs_from_fresh" % name, "%s differs from a newly constructed primitive" % name, step=step_tag, got=a, fresh=b)
     if "inertia" in exp and not mirrored:
         try:
             got = np.asarray(prim.moment_inertia, dtype=np.float64)
             ref = exp["inertia"]
-            # Box inertia is mesh based and exact; Cylinder / Sphere are analytic
             if got.shape != (3, 3) or np.abs(got - ref).max() > 1e-8 * np.abs(ref).max():
-                J.bad("read=moment_inertia analytic_mismatch", "moment_inertia differs from the analytic tensor", step=step_tag, got=got, expected=ref)
+                J.bad("read=moment_inertia_analytic_mismatch", "moment_inertia differs from the analytic tensor", step=step_tag, got=got, expected=ref)
         except BaseException as e:  # noqa
-            J.bad("read=moment_inertia exception:%s" % type(e).__name__, "reading moment_inertia raised", step=step_tag)
+            J.bad("read=moment_inertia_exception:%s" % type(e).__name__, "reading moment_inertia raised", step=step_tag)
     if "bounds" in exp:
         try:
             got = np.asarray(prim.bounds, dtype=np.float64)
             if np.abs(got - exp["bounds"]).max() > 1e-9 * scale:
-                J.bad("read=bounds analytic_mismatch", "bounds differ from center +- radius", step=step_tag, got=got, expected=exp["bounds"])
+                J.bad("read=bounds_analytic_mismatch", "bounds differ from center +- radius", step=step_tag, got=got, expected=exp["bounds"])
         except BaseException as e:  # noqa
-            J.bad("read=bounds exception:%s" % type(e).__name__, "reading bounds raised", step=step_tag)
+            J.bad("read=bounds_exception:%s" % type(e).__name__, "reading bounds raised", step=step_tag)
+    return V, F, own
+
+
+def _compare_fresh(J, prim, fresh, step_tag):
+    """`a primitive's mesh always reflects its current parameters`: equal to a newly built one."""
+    try:
+        V, F = np.array(prim.vertices, dtype=np.float64), np.array(prim.faces, dtype=np.int64)
+        FV, FF = np.array(fresh.vertices, dtype=np.float64), np.array(fresh.faces, dtype=np.int64)
+    except BaseException:  # noqa
+        return
+    scale = (float(np.linalg.norm(np.ptp(FV, axis=0))) or 1.0) + float(np.abs(FV).max())
+    same = V.shape == FV.shape and F.shape == FF.shape and np.abs(V - FV).max() <= 1e-9 * scale and np.array_equal(F, FF)
+    if not same:
+        ok, worst = sh.same_point_set(V, FV, 1e-9 * scale) if V.size and FV.size else (False, None)
+        mo, mf = sh.mesh_measures(V, F), sh.mesh_measures(FV, FF)
+        if not ok or abs(mo["volume"] - mf["volume"]) > 1e-9 * abs(mf["volume"]) or abs(mo["area"] - mf["area"]) > 1e-9 * mf["area"]:
+            J.bad("mesh_differs_from_fresh", "vertices/faces differ from a newly constructed primitive with the same parameters",
+                  step=step_tag, worst_vertex_distance=worst, volume=[mo["volume"], mf["volume"]], n=[len(V), len(FV)])
+    for name in ("volume", "area", "bounds", "moment_inertia", "center_mass", "extents"):
+        try:
+            a, b = np.asarray(getattr(prim, name), dtype=np.float64), np.asarray(getattr(fresh, name), dtype=np.float64)
+        except BaseException as e:  # noqa
+            J.bad("read=%s_exception:%s" % (name, type(e).__name__), "reading %s raised" % name, step=step_tag)
+            continue
+        if a.shape != b.shape or np.abs(a - b).max() > 1e-9 * max(np.abs(b).max(), scale * 1e-3):
+            J.bad("read=%s_differs_from_fresh" % name, "%s differs from a newly constructed primitive" % name, step=step_tag, got=a, fresh=b)
+
+
+def _placement_of(U):
+    if np.linalg.det(U[:3, :3]) < 0:
+        return "mirror"
+    return "none" if np.allclose(U, np.eye(4)) else "rigid"
 
 
 def case_primitive(run, spec):
     kind = spec["kind"]
     p = dict(spec["params"])
     U = np.array(spec["U"], dtype=np.float64)
-    rnd = random.Random(spec.get("rseed", 0))
-    pl0 = "mirror" if np.linalg.det(U[:3, :3]) < 0 else ("none" if np.allclose(U, np.eye(4)) else "rigid")
-    J = Judge(run, "prim=%s placement=%s edit=none" % (kind, pl0), spec)
+    pl0 = _placement_of(U)
+
+    def core(params):
+        # the polygon class is part of an Extrusion's input class
+        return "prim=%s%s" % (kind, (" " + _poly_class(params["polygon"])) if kind == "Extrusion" else "")
+
+    J = Judge(run, core(p), spec, orient="placement=%s" % pl0)
     try:
         prim = _new_prim(kind, p, U)
     except BaseException as e:  # noqa
-        J.bad("read=constructor exception:" + type(e).__name__, "constructor raised", error=repr(e)[:200])
+        J.bad("constructor_exception:" + type(e).__name__, "constructor raised", error=repr(e)[:200])
         return
-    _judge_prim(J, prim, kind, p, U, "constructed")
+    _judge_prim_obj(J, prim, kind, p, U, "constructed")
     run.case("prim:%s:constructed:%s" % (kind, pl0), kind, repr(sorted(p.items(), key=str)), U, nontrivial=True)
     hist = []
     for i, ed in enumerate(spec.get("edits", [])):
@@ -862,24 +955,31 @@ def case_primitive(run, spec):
             except BaseException:  # noqa
                 pass
         op = ed["op"]
-        tag = op
-        if op in ("apply_transform",):
-            tag = "apply_transform:" + ed.get("tf", "rigid")
+        tag = op if op != "apply_transform" else "apply_transform:" + ed.get("tf", "rigid")
         try:
             p2, U2 = _apply_edit(prim, kind, p, U, ed)
         except ValueError as e:
-            # documented refusals: non-rigid result, immutable etc.
+            # documented refusals (non-rigid result, immutable ...)
             run.skip("prim edit refused: %s %s: %s" % (kind, tag, str(e)[:40]))
             break
         except BaseException as e:  # noqa
-            J2 = Judge(run, "prim=%s placement=%s edit=%s" % (kind, pl0, tag), spec)
-            J2.bad("read=edit exception:" + type(e).__name__, "edit raised: %s" % str(e)[:100], step=i)
+            Judge(run, "prim=%s edit=%s" % (kind, tag), spec).bad("edit_exception:" + type(e).__name__, "edit raised: %s" % str(e)[:100], step=i)
             break
         p, U = p2, U2
-        pl = "mirror" if np.linalg.det(U[:3, :3]) < 0 else "rigid"
+        pl = _placement_of(U)
         hist.append(tag)
-        J2 = Judge(run, "prim=%s placement=%s edit=%s" % (kind, pl, tag), spec)
-        _judge_prim(J2, prim, kind, p, U, i)
+        # a newly constructed primitive with the model's parameters is judged first: what it shows too
+        # is not caused by the history
+        try:
+            fresh = _new_prim(kind, p, U)
+        except BaseException as e:  # noqa
+            run.skip("fresh primitive could not be built: %s" % type(e).__name__)
+            break
+        Jf = Judge(run, core(p), dict(spec, fresh_after_step=i), orient="placement=%s" % pl)
+        _judge_prim_obj(Jf, fresh, kind, p, U, i)
+        Je = Judge(run, "%s edit=%s" % (core(p), tag), spec, orient="placement=%s" % pl, inherited=Jf.fired)
+        _judge_prim_obj(Je, prim, kind, p, U, i)
+        _compare_fresh(Je, prim, fresh, i)
         run.case("prim:%s:%s" % (kind, tag), kind, tuple(hist), repr(spec["params"]), repr(spec.get("edits", [])[: i + 1]),
                  nontrivial=bool(ed.get("pre")))
         run.state("prim_edit", (kind, tag, "pre" if ed.get("pre") else "cold"))
@@ -922,6 +1022,8 @@ SWEEP_POLYGONS = [
     {"shell": [[-1, -1], [1, -1], [1, 1], [-1, 1]]},
     {"shell": [[-1, -0.5], [1, -0.5], [0, 1]]},
     {"shell": [[-1.5, -1], [1.5, -1], [1.5, 1], [-1.5, 1]], "holes": [[[-0.5, -0.5], [0.5, -0.5], [0.5, 0.5], [-0.5, 0.5]]]},
+    # hole vertices collinear with shell vertices (y = 1)
+    {"shell": [[-2, -1], [2, -1], [2, 1], [0, 2], [-2, 1]], "holes": [[[-1, -0.5], [1, -0.5], [1, 1], [-1, 1]]]},
 ]
 ENGINES = ["earcut", "triangle", "manifold"]
 
@@ -1007,7 +1109,8 @@ def workload(run):
         for cnt in counts:
             if mine():
                 placed("uv_sphere", {"radius": U(0.2, 5), "count": cnt}, places)
-            if mine():
+            if mine() and (cnt is None or cnt[1] >= 3):
+                # a capsule is revolved with count[1] sections (no doubling): 2 would be flat
                 placed("capsule", {"radius": U(0.2, 3), "height": U(0.2, 6), "count": cnt}, places)
         if mine():
             placed("cylinder", {"radius": 1.0, "height": 1.0, "sections": None}, [("none", None)])
@@ -1020,6 +1123,9 @@ def workload(run):
                         if not mine():
                             continue
                         if not full and n is None and int(angle / (2 * math.pi) * 32) < 1:
+                            continue
+                        if not full and n is not None and angle / n > math.pi - 0.2:
+                            # one flat wedge cannot span half a turn or more: not a valid parameter set
                             continue
                         pls = places if (rounds > 1 or rnd.random() < 0.3) else [("none", None)]
                         placed("revolve", {"profile": [list(map(float, q)) for q in prof], "angle": angle, "cap": cap, "sections": n,
